@@ -3,7 +3,9 @@ C13 — merging with itself or with an empty type system changes nothing.
 
 For every type system built through the API (any history of `create_type` / `create_feature` that declares features on
 user types), merging it alone, with itself, or with a fresh empty type system (in either order) succeeds and yields a type
-system with the same types, supertypes, descriptions, children and effective features under every name.
+system with the same types, supertypes, descriptions, children and effective features under every name (features
+compared as `Feature.__eq__` does, see `SameDecl`: of two identical definitions on one chain the merge exposes the
+ancestor's, the original the one made first).
 -/
 import CassisModel.Proofs.MergeSelf
 
